@@ -192,6 +192,9 @@ def run(ctx):
     ctx.rule("R05.i", "in every @contextmanager, each write to object state (attribute/subscript store) made after the yield on the normal way out is also made on the way out of a failing body", floor=5)
     ctx.rule("R05.g", "a self-resetting Event is reset even when a watcher raises during the assignment: in Event.__set__ the reset is passed on the exceptional exit of super().__set__", floor=1)
     ctx.rule("R05.h", "a failing flush leaves no events behind: every exceptional exit of the flush passes a reset of both queues", floor=1)
+    ctx.rule("R05.n", "namespace model (shared with R13.h), with class-level sets that are REFUSED after a watcher read the namespaces: after a failed class-level assignment every `.param` "
+                      "lookup still names the Parameter that governs attribute access -- edit_constant, update and trigger switch flags and Event modes through that lookup, so a stale one "
+                      "makes them act on the wrong object from then on", floor=1)
     ctx.rule("R05.k", "constructor model: Parameters._setup_params interpreted abstractly (keywords x reference modes): no link is installed (no watcher put on a source object) while keywords "
                       "are still being applied -- references are only collected, and linked after every keyword has been accepted -- so a rejected keyword leaves nothing behind on other objects", floor=1)
     ctx.rule("R05.s", "setter model: Parameter.__set__ interpreted abstractly on every combination (576) of route x constant/readonly x validation outcome x identity x reference mode x watchers x "
@@ -334,6 +337,8 @@ def run(ctx):
     setter_model.report(ctx, "C05", "R05.s")
     from checks import ctor_model
     ctor_model.report(ctx, "C05", "R05.k")
+    from checks import namespace_model
+    namespace_model.report(ctx, "R05.n")
     from checks import update_model
     update_model.report(ctx, "C05", "R05.m")
     from checks import trigger_model
